@@ -467,7 +467,7 @@ def run(ctx):
     # scenarios of C18 (every hit touched, the touch not ahead of the validation call) decide that; the other C18 rules stay with C18
     from . import c18 as _c18
     expl = ctx.explanation
-    with ctx.renamed({**{f"R18.{k}": None for k in range(1, 10)}, "R18.4": "R19.5"}):
+    with ctx.renamed({**{f"R18.{k}": None for k in range(1, 10)}, "R18.1b": None, "R18.4": "R19.5"}):
         _c18.run(ctx)
     ctx.explanation = expl
     ctx.require_count("R19.5", 3)
